@@ -250,6 +250,19 @@ def run_impl(exe, seed, nworkers, sched, wmode, nfiles, opt, sopt, prefix, toks,
     r.replay = {}
     r.roundtrip = {}
     cur = None
+    try:
+        parse_lines(r, cur)
+    except (ValueError, IndexError, KeyError) as e:
+        # a line of the dump / re-read / conversion listing that cannot even be parsed (an empty name, a missing
+        # number): what the implementation wrote or read back is broken, not the harness
+        r.crash = "unparsable listing of the dumped / re-read / converted DAG (%s: %s)" % (type(e).__name__, e)
+        return r
+    r.stat = parse_stat(prefix + ".stat")
+    r.stat_s = parse_stat(prefix + "_s.stat")
+    return r
+
+
+def parse_lines(r, cur):
     for l in r.lines:
         w = l.split()
         tag = w[0]
@@ -267,7 +280,7 @@ def run_impl(exe, seed, nworkers, sched, wmode, nfiles, opt, sopt, prefix, toks,
         elif "." in tag and tag.split(".")[0] in ("mem", "file", "shr"):
             k = tag.split(".")[1]
             if k == "S":
-                cur["S"].append(w[2])
+                cur["S"].append(w[2] if len(w) > 2 else "")      # an empty name (e.g. a string table that is not there)
             else:
                 cur[k].append([int(x) for x in w[2:]])
         elif tag == "replay":
@@ -276,9 +289,6 @@ def run_impl(exe, seed, nworkers, sched, wmode, nfiles, opt, sopt, prefix, toks,
             r.roundtrip[w[1]] = int(w[2])
         elif tag == "hooks":
             r.hooks = [int(x) for x in w[1:]]
-    r.stat = parse_stat(prefix + ".stat")
-    r.stat_s = parse_stat(prefix + "_s.stat")
-    return r
 
 
 def parse_stat(path):
@@ -698,7 +708,15 @@ def campaign(res, want, nprog, corpus_dir, model_lines, oracle):
             continue
         total = sh["intervals"] + sh["creates"] + sh["sections"] + 1
         inc("materialized_ratio", bucket(100 * run.dags["mem"]["n"] // total, (5, 25, 50, 75, 100)))
-        ls, ex = model_lines(run, c.opt, c.sopt)
+        try:
+            ls, ex = model_lines(run, c.opt, c.sopt)
+        except (ValueError, IndexError, KeyError) as e:
+            # the listing of what the implementation dumped / read back cannot be put into the model's format
+            # (e.g. a file name that is not one of the generated names): the implementation's output is broken
+            if first_bad is None:
+                first_bad = (c, ["the dumped / re-read / converted DAG is not a well-formed listing: %s (%s)" % (type(e).__name__, e)])
+            disagree += 1
+            continue
         batch_lines.extend(ls)
         batch_exp.extend(ex)
         batch_case.extend([ci] * len(ls))
